@@ -74,6 +74,7 @@ func main() {
 		}
 		chk.Finish()
 	}
+	runColdStart() // must stay first: the first operations of the process
 	runFields()
 	runRS16()
 	runRS256()
